@@ -752,7 +752,9 @@ pub fn c10(args: &Args) -> Acc {
         cfg.ori = Ori((idx % 8) as u8);
         let fin = Ori(((idx / 8) % 8) as u8);
         let mut seq: Vec<Ori> = Vec::new();
-        for _ in 0..rng.range(0, 5) {
+        // now and then several hundred orientation changes in a row (nothing drawn in between)
+        let run = if !cfg.tr.is_l2() && rng.chance(1, 30) { *rng.pick(&[254usize, 255, 256, 511, 512, 1023]) } else { rng.range(0, 5) as usize };
+        for _ in 0..run {
             seq.push(Ori(rng.below(8) as u8));
         }
         seq.push(fin);
@@ -775,15 +777,32 @@ pub fn c10(args: &Args) -> Acc {
         }
         let draw = gen::gen_program(&mut rng, &twin_cfg, &po);
         let mut prog: Vec<Op> = Vec::new();
+        // every other case draws in the initial orientation first (a driver may remember
+        // things about its last drawing call; the orientation change must invalidate them)
+        if rng.bool() {
+            let mut po0 = ProgOpts { max_calls: 3, ..crate::props::draw::clone_po(&po) };
+            po0.mode = Mode::InBounds;
+            po0.allow_set_pixels = true;
+            prog.extend(gen::gen_program(&mut rng, &cfg, &po0));
+            a.count("cases_drawing_before_the_orientation_changes", 1);
+        }
         let asleep = rng.chance(1, 5);
         if asleep {
             // orientation changes while the panel sleeps must still arrive
             prog.push(Op::Sleep);
         }
-        prog.extend(seq.iter().map(|o| Op::SetOrientation(*o)));
+        // now and then the raw interface is borrowed (nothing sent) right before a change
+        let borrow_at = if rng.chance(1, 4) { Some(rng.below(seq.len() as u64) as usize) } else { None };
+        for (k, o) in seq.iter().enumerate() {
+            if borrow_at == Some(k) {
+                prog.push(Op::DcsBorrow);
+            }
+            prog.push(Op::SetOrientation(*o));
+        }
         if asleep {
             prog.push(Op::Wake);
         }
+        let first_final_draw = prog.len();
         prog.extend(draw.iter().cloned());
         let cj = || case_json(&cfg, &prog).with("final_orientation", fin.name());
         a.seen("initial_final_pairs", format!("{}->{}", cfg.ori.name(), fin.name()));
@@ -799,6 +818,10 @@ pub fn c10(args: &Args) -> Acc {
         sb.keep_touched = true;
         let mut bad = false;
         for (i, op) in prog.iter().enumerate() {
+            if i == first_final_draw {
+                // the twin only sees the drawing calls made in the final orientation
+                sa.touched.clear();
+            }
             let ra = sa.step(op);
             for f in &ra.findings {
                 // everything after a set_orientation is C10's business; out-of-bounds
